@@ -1,4 +1,5 @@
 import MmtkModel.Lemmas.Sched
+import MmtkModel.Lemmas.SchedCount
 import MmtkModel.Generated.Stages
 /-!
 # C15 — Stop-the-world stages open in order; each packet runs exactly once
@@ -23,8 +24,12 @@ from the linked crate is well-formed: `generated_wf`).
   bucket during the GC has been taken out during it.  The exemptions are part of the statement:
   packets pushed by mutators into *closed* buckets between GCs run in the next GC; packets in the
   `Concurrent` bucket run after the pause.
-  Not proved: the global multiset equation `added = ended ⊎ running ⊎ queued` with unique ids (the
-  event-log monitor and the Python oracle check it on every replayed GC instead).
+* `packet_conservation`, `gc_end_accounting` — the counting form of conservation for every reachable
+  state: `added = queued + started`, `started = running + ended`; at the end of a GC nothing runs, all
+  local deques and designated queues are empty, `started = ended`, and `added = (bucket queues +
+  sentinel slots) + ended` with every stop-the-world queue empty.
+  Not proved: uniqueness of packet ids (that the *same* packet is not both queued and ended); the
+  event-log monitor and the Python oracle check it on every replayed GC instead.
 -/
 namespace Mmtk.Sched
 
@@ -138,6 +143,57 @@ theorem exactly_once_partial {c : Cfg} (hwf : c.WF) {s s' : State} {a : Act} (hs
     (s'.bkt b).q = [] ∧ (s'.bkt b).isOpen = false :=
   let ⟨_, _, _, h⟩ := all_closed_at_end hwf hs hg
   ⟨(h b hb hstw).2, (h b hb hstw).1⟩
+
+/-- **C15 (3) packet conservation** (counting form), every reachable state: every packet ever created
+is queued (in a bucket, a sentinel slot, a local deque or a designated queue) or has started; every
+started packet is running on exactly one worker or has ended. -/
+theorem packet_conservation {c : Cfg} (hu : c.unconIdx < c.L) {s : State} (h : Reachable c s) :
+    s.added = queued c s + s.started ∧ s.started = running c s + s.ended :=
+  let k := reachable_invK hu h
+  ⟨k.added_eq, k.started_eq⟩
+
+/-- **C15 (3) at the end of a GC**: nothing is running, every local deque and designated queue is
+empty, every started packet has ended, and every packet created so far has either ended or sits in a
+bucket queue / sentinel slot — and those of the stop-the-world buckets are empty
+(`all_closed_at_end`): every packet added to a stop-the-world stage, a local deque or a designated
+queue during the GC was executed, once, in that GC. -/
+theorem gc_end_accounting {c : Cfg} (hwf : c.WF) (hu : c.unconIdx < c.L) (hmut : c.mutAddOpen = false)
+    {s s' : State} {a : Act} (hr : Reachable c s) (hs : step c s a = some s') (hg : s'.gcDone ≠ s.gcDone) :
+    running c s' = 0 ∧ s'.started = s'.ended ∧ qBuf c s' = 0 ∧ qDes c s' = 0 ∧ s'.added = qBkt c s' + s'.ended ∧
+    ∀ b, b < c.L → (c.info b).isStw = true → (s'.bkt b).q = [] := by
+  have hr' : Reachable c s' := by
+    obtain ⟨run, h⟩ := hr
+    refine ⟨run ++ [a], ?_⟩
+    have : ∀ (l : List Act) (t : State), exec c t l = some s → exec c t (l ++ [a]) = some s' := by
+      intro l
+      induction l with
+      | nil => intro t e; simp only [exec] at e; injection e with e; subst e; simp [exec, hs]
+      | cons b l ih =>
+        intro t e
+        simp only [exec, List.cons_append] at e ⊢
+        cases ht : step c t b with
+        | none => rw [ht] at e; cases e
+        | some t1 => rw [ht] at e; exact ih t1 e
+    exact this run _ h
+  obtain ⟨k1, k2⟩ := packet_conservation hu hr'
+  obtain ⟨⟨w, tag, rfl⟩, _, _, hclosed⟩ := all_closed_at_end hwf hs hg
+  obtain ⟨q1, q2⟩ := quiescent_at_end hwf hmut hr hs hg
+  have hex := step_park_isExec hs
+  have r0 : running c s' = 0 := countW_zero _ _ (fun x hx => by rw [hex x]; exact q1 x hx)
+  have b0 : qBuf c s' = 0 := sumW_zero _ _ (fun v hv => by rw [q2 v hv]; rfl)
+  have d0 : qDes c s' = 0 := by
+    obtain ⟨_, _, _, hcase⟩ := step_park_cases hs
+    rcases hcase with ⟨_, rfl⟩ | ⟨_, s1, r, hl, he⟩
+    · exact absurd rfl hg
+    · have hnd := onLastParked_gcDone_nodesig c _ s1 tag r hl (by intro e; apply hg; rw [he]; exact e)
+      have f := frame_onLastParked c _ _ _ _ hl
+      apply sumW_zero; intro v hv
+      rw [he]; show (s1.desig v).length = 0; rw [f.desig]
+      have := hasDesignated_false hnd v hv
+      show (s.desig v).length = 0
+      rw [this]; rfl
+  unfold queued at k1
+  refine ⟨r0, by omega, b0, d0, by omega, fun b hb hstw => (hclosed b hb hstw).2⟩
 
 open Mmtk.Generated.Stages in
 example : (cfg 4).WF := generated_wf 4 (by decide) false
